@@ -173,7 +173,7 @@ Ltac prem :=
 
 Ltac norm := inj; rw_pc; classes; prem; rw_ent; prem.
 
-Ltac fin := norm; solve [intuition (subst; norm; try congruence; try discriminate)].
+Ltac fin := norm; solve [intuition (subst; norm; try contradiction; try congruence; try discriminate)].
 
 Ltac open_inv := constructor; intros; simp; repeat upd1; simp.
 
